@@ -1,6 +1,6 @@
 package snapshot
 
-// Replay driver for obligation snapshot.Upgrade8To10#assert@p.Execute[resume-replays-only-before-the-rename]
+// Replay driver for obligation snapshot.Upgrade8To10#assert@p.Execute[executed-only-when-persisted-or-safely-resumed]
 // (property C08). Witness: the resume branch executes the stored plan again from its first
 // operation without looking whether the Rename into place already happened; the plan re-creates the source of its Rename
 // (MkdirAll tmp ... Rename tmp -> new) and removes the directory its CopyFile reads from
